@@ -23,3 +23,6 @@ open HmcVerif.C03
 #print axioms reject_restores_initial
 #print axioms inv_history_queued
 #print axioms queue_empty_after_accept_or_reject
+#print axioms rejected_trajectory_leaves_no_trace
+#print axioms history_without_rejected_trajectory
+#print axioms clean_after_accept_or_reject
